@@ -156,10 +156,17 @@ def configs(tier):
                     if ratio in (2, 4, 8):
                         kinds.append(("dense", sd, ratio.bit_length() - 1))
             for (kind, cdw, cal), nm, ld in itertools.product(kinds, names, lead):
-                for caw in (2, 3):
+                for caw in (2, 3) if quick else (1, 2, 3):
                     for leaf in leafs(cdw, caw, cal):
-                        items = list(ld) + [("win", leaf, kind, nm, None), ("res", 1, None)]
-                        out.append(dict(aw=root_aw, dw=root_dw, al=0, items=items))
+                        for root_al in (0,) if quick else (0, 1, 2):
+                            items = list(ld) + [("win", leaf, kind, nm, None), ("res", 1, None)]
+                            out.append(dict(aw=root_aw + (1 if root_al else 0), dw=root_dw, al=root_al, items=items))
+                            if not quick:
+                                # two sibling windows of the same kind, the second at an explicit (aligned) address
+                                span = max((1 << caw) // (root_dw // cdw if kind == "dense" else 1), 1 << root_al)
+                                items2 = list(ld) + [("win", leaf, kind, nm, None),
+                                                     ("win", dict(leaf), kind, "sib", 4 * span), ("res", 1, None)]
+                                out.append(dict(aw=root_aw + 1, dw=root_dw, al=root_al, items=items2))
             # ---- three levels: root -> middle (ratio-1 / sparse; possibly holding ONLY windows) -> leaf ----
             for mid_kind, mid_dw in [("same", root_dw)] + [("sparse", sd) for sd in (8, 16) if sd < root_dw]:
                 inner = [("same", mid_dw, 0)]
